@@ -304,7 +304,16 @@ fn cmd_check(a: &Args) -> i32 {
     run::install_panic_hook();
     run::install_abort_capture(prop, &root.join("replays").join(prop));
     let mut env = Env::new(prop, tier, seed, root.clone(), profile());
+    if let Some(only) = a.opts.get("only") {
+        env.only = only.split(',').map(|x| x.to_string()).collect();
+        // a stack overflow or an abort in the unoptimised library must leave a replayable case behind
+        env.park = true;
+    }
     let res = checks::run(&mut env).expect("registered property");
+    if !env.only.is_empty() {
+        // (a child run of selected sub-checks: which classes must be reached is the parent's business)
+        env.required_clear();
+    }
     if res.is_ok() {
         if let Some(dir) = a.opts.get("fuzz-corpus") {
             let inputs = load_corpus(dir, checks::fuzz_framed(prop), 30_000);
@@ -380,6 +389,23 @@ fn cmd_check(a: &Args) -> i32 {
             }
         } else {
             env.note("release-profile binary not given: only the relcheck profile was run");
+        }
+    }
+
+    // the deep-input sub-checks once more against the library compiled without optimisation
+    if failure.is_none() && inconclusive.is_none() {
+        if let (Some(bin), Some(only)) = (a.opts.get("dev-bin"), checks::deep_subs(prop)) {
+            let extra: Vec<String> = vec!["--only".into(), only.join(",")];
+            match run_child(bin, prop, tier, seed, &root, &extra) {
+                Ok(c) => {
+                    profiles.push(J::s("devcheck (library at opt-level 0)"));
+                    child_evals += c.evals;
+                    if let Some((sub, input, msg)) = c.failure {
+                        failure = Some((sub, input, format!("[library built without optimisation] {}", msg), "devcheck"));
+                    }
+                }
+                Err(e) => inconclusive = Some(e),
+            }
         }
     }
 
